@@ -15,11 +15,12 @@ EXTENDS Integers, Sequences, FiniteSets, TLC, Json, IOUtils
 
 Data == JsonDeserialize(IOEnv.TRACE_FILE)
 Tr == Data.traces
-VARIABLES tid, l, known
-tvars == <<tid, l, known>>
+VARIABLES tid, l, known,
+          st            \* Sector!st: id -> projection [cls, q0, qL, zero, dims] after the previous call
+tvars == <<tid, l, known, st>>
 Rec == Tr[tid][l]
 HasRec == tid <= Len(Tr) /\ l <= Len(Tr[tid])
-TraceInit == tid = 1 /\ l = 1 /\ known = {}
+TraceInit == tid = 1 /\ l = 1 /\ known = {} /\ st = <<>>
 
 ObjOK(o) == /\ o.qlens = o.dims                     \* LenOK
             /\ o.kinds_ok /\ o.shapes_ok            \* KindOK
@@ -29,13 +30,47 @@ StateOK == \A k \in DOMAIN Rec.objs : ObjOK(Rec.objs[k])
 Ids == {Rec.objs[k].id : k \in DOMAIN Rec.objs}
 (* objects never disappear; only "fresh" calls create one *)
 PoolOK == known \subseteq Ids /\ (Rec.kind # "fresh" => Ids = known) /\ Cardinality(Ids) = Len(Rec.objs)
-OpOK == StateOK /\ PoolOK /\ Rec.boundary_fixed
+(* ---- the actions of Sector.tla, bound to the logged call: st is the projection before, New the one after ---- *)
+Proj(o) == [cls |-> o.cls, q0 |-> o.q0, qL |-> o.qL, zero |-> o.zero, dims |-> o.dims]
+New == [i \in Ids |-> Proj(Rec.objs[CHOOSE k \in DOMAIN Rec.objs : Rec.objs[k].id = i])]
+Old == DOMAIN st
+Untouched(S) == \A i \in S : i \in Ids /\ New[i] = st[i]
+Inner(d) == [k \in 1..(Len(d) - 2) |-> d[k + 1]]
+SumSeq(a, b) == [k \in DOMAIN a |-> a[k] + b[k]]
+QSum(a, b) == IF a = <<>> \/ b = <<>> THEN <<>> ELSE <<a[1] + b[1]>>
+ActionOK ==
+    LET r == Rec.created  ops == Rec.operands IN
+    CASE Rec.rule \in {"pure", "graph"} -> Untouched(Old) /\ (r = 0 \/ Rec.rule = "graph")            \* Sector: no action
+      [] Rec.rule = "create" -> Untouched(Old) /\ r \in Ids \ Old                                        \* Sector!Create
+      [] Rec.rule = "from_vector" ->                                                                       \* Sector!FromVector
+            /\ Untouched(Old) /\ r \in Ids \ Old
+            /\ New[r].cls = "mps" /\ New[r].q0 = <<0>> /\ New[r].qL = <<0>>
+      [] Rec.rule = "inplace" ->                                                                           \* Sector!InPlace
+            /\ Rec.target \in Old /\ Untouched(Old \ {Rec.target}) /\ Ids = Old
+            /\ New[Rec.target].cls = st[Rec.target].cls
+            /\ Len(New[Rec.target].dims) = Len(st[Rec.target].dims)
+            /\ (~st[Rec.target].zero) => (New[Rec.target].q0 = st[Rec.target].q0 /\ New[Rec.target].qL = st[Rec.target].qL)
+            \* (a zero state may come back as a unit-norm state: the QR of a zero block returns an isometry and R = 0)
+      [] Rec.rule = "add" ->                                                                               \* Sector!Add
+            /\ Len(ops) = 2 /\ ops[1] \in Old /\ ops[2] \in Old /\ Untouched(Old) /\ r \in Ids \ Old
+            /\ New[r].cls = st[ops[1]].cls /\ st[ops[2]].cls = st[ops[1]].cls
+            /\ New[r].q0 = st[ops[1]].q0 /\ New[r].qL = st[ops[1]].qL
+            /\ st[ops[2]].q0 = st[ops[1]].q0 /\ st[ops[2]].qL = st[ops[1]].qL
+            /\ Len(New[r].dims) = Len(st[ops[1]].dims)
+            /\ Inner(New[r].dims) = SumSeq(Inner(st[ops[1]].dims), Inner(st[ops[2]].dims))                  \* direct sum on interior bonds
+      [] Rec.rule \in {"apply", "mul"} ->                                                                  \* Sector!Apply
+            /\ Len(ops) = 2 /\ ops[1] \in Old /\ ops[2] \in Old /\ Untouched(Old) /\ r \in Ids \ Old
+            /\ st[ops[1]].cls = "mpo" /\ New[r].cls = st[ops[2]].cls
+            /\ New[r].q0 = QSum(st[ops[1]].q0, st[ops[2]].q0) /\ New[r].qL = QSum(st[ops[1]].qL, st[ops[2]].qL)
+            /\ New[r].dims = [k \in DOMAIN st[ops[1]].dims |-> st[ops[1]].dims[k] * st[ops[2]].dims[k]]   \* bonds multiply
+      [] OTHER -> FALSE
+OpOK == StateOK /\ PoolOK /\ Rec.boundary_fixed /\ ActionOK
 
 TOp == /\ HasRec /\ Rec.ev = "op" /\ (OpOK = TRUE)
-       /\ known' = Ids /\ l' = l + 1 /\ tid' = tid
+       /\ known' = Ids /\ st' = New /\ l' = l + 1 /\ tid' = tid
 TNextTrace == /\ tid <= Len(Tr) /\ l > Len(Tr[tid])
               /\ TLCSet(1, TLCGet(1) \cup {tid})
-              /\ tid' = tid + 1 /\ l' = 1 /\ known' = {}
+              /\ tid' = tid + 1 /\ l' = 1 /\ known' = {} /\ st' = <<>>
 Bad == CHOOSE k \in DOMAIN Rec.objs : ~ObjOK(Rec.objs[k])
 Diagnose ==
     IF Rec.ev = "raise" THEN "exception in a valid history: " \o Rec.op \o ": " \o Rec.exc
@@ -45,10 +80,11 @@ Diagnose ==
          ELSE IF ~Rec.objs[Bad].kinds_ok THEN "after " \o Rec.name \o ": quantum numbers are not stored as integer sequences"
          ELSE "after " \o Rec.name \o ": tensor shapes inconsistent")
     ELSE IF ~Rec.boundary_fixed THEN "after " \o Rec.name \o ": total quantum numbers of a non-zero state changed"
+    ELSE IF PoolOK /\ ~ActionOK THEN "after " \o Rec.name \o ": the projections before / after the call are not related by the " \o Rec.rule \o " action of Sector.tla"
     ELSE "after " \o Rec.name \o ": an object disappeared from / appeared in the pool unexpectedly"
 TReject == /\ HasRec /\ ((Rec.ev # "op") \/ (OpOK = FALSE))
            /\ PrintT(<<"REJECT", tid, l, Rec.ev, Diagnose>>)
-           /\ tid' = tid + 1 /\ l' = 1 /\ known' = {}
+           /\ tid' = tid + 1 /\ l' = 1 /\ known' = {} /\ st' = <<>>
 TraceNext == TOp \/ TNextTrace \/ TReject
 TraceSpec == TraceInit /\ [][TraceNext]_tvars
 ASSUME TLCSet(1, {})
